@@ -55,13 +55,22 @@ def run(spec):
     cls.append('colab-layout')
   fixed_cost_metric = scen == 'fixed' and metric == 'tbr_cost'
   post = None
+  lib_only = False
   if not fixed_cost_metric:
     post = tbrref.Posterior(Xs[pre], Ys[pre], Xs[an], Ys[an])
     if post.degenerate or not post.sigma2 > 0:
-      return {'viol': [], 'nt': False, 'cls': ['degenerate'], 'dc': 1}
+      if scen == 'trt_always_on' and metric == 'tbr_cost' and float(np.var(Ys[pre])) > 0:
+        # constant control series: the closed form does not apply; the report is still compared with the library's
+        # own posterior (tbr.py) - the statement's "quantiles of the TBR posterior"
+        lib_only = True
+        post = None
+      else:
+        return {'viol': [], 'nt': False, 'cls': ['degenerate'], 'dc': 1}
   alpha = (1 - spec['level']) / spec['tails']
   det = {'metric': metric, 'scenario': scen, 'n_pre': fs['n_pre'], 'n_test': fs['n_test'], 'n_cool': fs['n_cool'],
          'level': spec['level'], 'tails': spec['tails'], 'unassigned_periods': un_periods}
+  if lib_only:
+    det['scale_decreases'] = None
   if post is not None:
     det['scale_decreases'] = bool((np.diff(post.scale) < 0).any())
     if det['scale_decreases']:
@@ -100,6 +109,18 @@ def run(spec):
         viol.append(('C18:%s:nan' % name, det))
       elif not ((lo <= es).all() and (es <= up).all()):
         viol.append(('C18:%s:bounds-order' % name, det))
+    if lib_only:
+      cls.append('constant-control-series')
+      mdl = m.tbr_cost if metric == 'tbr_cost' else m.tbr_response
+      d = mdl.causal_cumulative_distribution()
+      lo_l, up_l = np.asarray(d.ppf(alpha), float), np.asarray(d.ppf(1 - alpha), float)
+      if np.all(np.diff(np.asarray(d.kwds['scale'], float)) >= 0):
+        tol = 1e-9 * float(np.max(np.abs(d.kwds['scale']))) + 1e-12
+        if not (util.deep_eq(np.asarray(cu['lower'], float), lo_l, 1e-9, tol) and util.deep_eq(np.asarray(cu['upper'], float), up_l, 1e-9, tol)
+                and util.deep_eq(np.asarray(cu['estimate'], float), np.asarray(d.kwds['loc'], float), 1e-9, tol)):
+          viol.append(('C18:cumulative-vs-library-posterior', dict(det, got=[float(np.asarray(cu['lower'], float)[-1]), float(np.asarray(cu['upper'], float)[-1])],
+                                                                  want=[float(lo_l[-1]), float(up_l[-1])])))
+      return {'viol': viol[:4], 'nt': fs['n_pre'] >= 4 and int(an.sum()) >= 2, 'cls': cls, 'dc': 0}
     if not viol:
       obs = Ys[in3]
       sc = float(np.max(np.abs(obs))) + 1e-300
